@@ -148,6 +148,17 @@ func GenProgram(r *RNG, o ProgOpts) *Program {
 		nd := 2 + r.Intn(6)
 		// names declared in this package are referable from the start (forward references through pointers etc.)
 		var mine []namedRef
+		if r.Chance(1, 5) {
+			// a package-level type that shadows a predeclared name: a different type from the builtin, in this package only
+			// ("any" only without generics: `[T any]` would then be constrained by the local type, and v2 walks the
+			// implicit constraint interface under the constrained type's own name -- outside every property's fragment, see DESIGN.md F19)
+			shadows := []string{"byte int32", "rune string", "float float64", "uintptr bool", "float32 int64", "uint16 string", "complex128 float64"}
+			if !o.V2 {
+				shadows = append(shadows, "any int")
+			}
+			sh := r.Pick(shadows)
+			fmt.Fprintf(&b, "type %s\n\n", sh)
+		}
 		for di := 0; di < nd; di++ {
 			kind := r.Intn(12)
 			name := fmt.Sprintf("%s%d", []string{"S", "A", "P", "R", "C", "F", "I", "E", "M", "G", "S", "S"}[kind], di)
